@@ -7,6 +7,8 @@ import XsdataModel.Codegen.Cache
 import XsdataModel.Proofs.CircularSound
 import XsdataModel.Proofs.StylesPerm
 import XsdataModel.Proofs.CachePure
+import XsdataModel.Codegen.Overrides
+import XsdataModel.Proofs.OverridesFrame
 
 namespace Props.C12
 open Py Xs.Codegen List
@@ -146,5 +148,59 @@ the hashed string — e.g. classes named after the package, sources fixed -/
 example : KeyFaithful true (fun (u : List Str) (p : Str) => concatAll (u ++ [p])) := by
   intro u p u' p' h
   simpa [cacheKey] using h
+
+/-! ## 8. `ValidateAttributesOverrides`: the parent attrs are live objects (finding C12-F7) -/
+
+/-- Full strength: which fields the classes of a hierarchy get does not depend on the
+order in which the container visits the classes. -/
+def overrides_order_independent : Prop :=
+  ∀ (cleanUri : Str → Str) (st : OState) (order order' : List Nat), order ~ order' →
+    overrideFields (runOverrides cleanUri st order) = overrideFields (runOverrides cleanUri st order')
+
+/-- False.  `B{e}` (namespace t1), `D1 extends B {e}` (namespace t0), `D2 extends B {e}`
+(namespace t1): validating `D1` renames **`B.e`** to `t1_e` (`rename_attribute_by_preference`
+prefers the parent), after which `D2.e` is a new field; validating `D2` first, `D2.e` is an
+override of `B.e` with the same restrictions and is dropped. -/
+theorem overrides_order_independent_false : ¬ overrides_order_independent := by
+  intro h
+  have := h (fun _ => ['t', '1'])
+    [ { attrs := [{ name := ['e'], ns := some ['u', 'r', 'n', ':', 't', '1'], minOccurs := 0 }] },
+      { attrs := [{ name := ['e'], ns := some ['u', 'r', 'n', ':', 't', '0'], minOccurs := 0 }], base := some 0 },
+      { attrs := [{ name := ['e'], ns := some ['u', 'r', 'n', ':', 't', '1'], minOccurs := 0 }], base := some 0 } ]
+    [1, 2] [2, 1] (List.Perm.swap _ _ _)
+  revert this
+  decide
+
+/-- the two outcomes of the witness: `D2` keeps the field `e` in one order and has no field in the other -/
+example :
+    overrideFields (runOverrides (fun _ => ['t', '1'])
+      [ { attrs := [{ name := ['e'], ns := some ['u', 'r', 'n', ':', 't', '1'], minOccurs := 0 }] },
+        { attrs := [{ name := ['e'], ns := some ['u', 'r', 'n', ':', 't', '0'], minOccurs := 0 }], base := some 0 },
+        { attrs := [{ name := ['e'], ns := some ['u', 'r', 'n', ':', 't', '1'], minOccurs := 0 }], base := some 0 } ]
+      [1, 2])
+    = [[(['t', '1', '_', 'e'], false)], [(['e'], false)], [(['e'], false)]] := by decide
+
+/-- The provable part, with the excluded region as a decidable hypothesis (`calmClass`:
+every attr of the class that is named like a base attr is an override of it — same xml
+type and namespace — and not a list over a non-list): validating such a class changes
+**no other class**, so what the other classes get cannot depend on when it is visited. -/
+theorem overrides_frame_partial (cleanUri : Str → Str) (st : OState) (t : Nat)
+    (hcalm : calmClass st t = true) (j : Nat) (hj : j ≠ t) :
+    (validateClass cleanUri st t)[j]? = st[j]? :=
+  validateClass_frame cleanUri st t hcalm j hj
+
+/-- the hypothesis is satisfiable (`D2` of the witness is calm against the untouched `B`) … -/
+example : calmClass
+    [ { attrs := [{ name := ['e'], ns := some ['u', 'r', 'n', ':', 't', '1'], minOccurs := 0 }] },
+      { attrs := [{ name := ['e'], ns := some ['u', 'r', 'n', ':', 't', '0'], minOccurs := 0 }], base := some 0 },
+      { attrs := [{ name := ['e'], ns := some ['u', 'r', 'n', ':', 't', '1'], minOccurs := 0 }], base := some 0 } ] 2 = true := by
+  decide
+
+/-- … and fails exactly for the class that makes the handler rename the parent attr -/
+example : calmClass
+    [ { attrs := [{ name := ['e'], ns := some ['u', 'r', 'n', ':', 't', '1'], minOccurs := 0 }] },
+      { attrs := [{ name := ['e'], ns := some ['u', 'r', 'n', ':', 't', '0'], minOccurs := 0 }], base := some 0 },
+      { attrs := [{ name := ['e'], ns := some ['u', 'r', 'n', ':', 't', '1'], minOccurs := 0 }], base := some 0 } ] 1 = false := by
+  decide
 
 end Props.C12
